@@ -10,7 +10,8 @@ from . import httplib as H
 OCAML = H.OCAML
 GO = H.GO
 PROP = "props/C14.v"
-PROOFS = list(dict.fromkeys(["proofs/HttpDrainProofs.v", "model/HttpDrain.v", "lib/LTS.v"] + H.PROTO_PROOFS + H.MODEL_FILES))
+PROOFS = list(dict.fromkeys(["proofs/HttpDrainProofs.v", "proofs/HttpComposeProofs.v", "proofs/HttpProgress.v", "model/HttpCompose.v",
+                             "model/HttpDrain.v", "lib/LTS.v"] + H.PROTO_PROOFS + H.MODEL_FILES))
 HOW = "build/bin/http -family drain -case <file with the case JSON> | build/bin/http_model"
 
 
@@ -128,7 +129,10 @@ def run(run):
         "a request that finishes after the last poll instant before the deadline makes Shutdown report the deadline although "
         "nothing was cut (gap of net/http's polling back-off); the model allows both outcomes there",
         "on a Reload the drain timeout applied to the OLD server is the NEW configuration's DrainTimeout (setConfig precedes "
-        "stopServer); the model follows the code"]
+        "stopServer); the model follows the code",
+        "DrainTimeout <= 0: stopServer reports the timeout on every stop, an idle server included (context expired at creation, "
+        "tested before Shutdown's result); the model follows the code (sres_allowed, C14_zero_drain_always_times_out) and the "
+        "driver checks it on every DR line"]
 
 
 def replay(path):
